@@ -14,12 +14,12 @@ func init() {
 		NotDecided: "decode(encode(x)) = x for all x; the packfile varint header arithmetic.",
 	}
 	props["C07"] = &propSpec{
-		Rules:      []string{"C07-a", "C07-b", "C07-c", "C07-d", "C07-f", "C06-a"},
+		Rules:      []string{"C07-a", "C07-b", "C07-c", "C07-d", "C07-f", "C06-a", "C13-a", "C13-h"},
 		Decides:    "the receiver's validation and ordering mechanisms: blocks validated before being stored (C07-a), no commit stored while a parent is missing (C07-b), rebuilt block indices compared with the table's recorded sums (C07-c), sender pushes blocks before table before commit (C07-d), blocks stored under the hash of the decoded content (C07-e).",
 		NotDecided: "byte identity of source and destination stores; packfile splitting arithmetic.",
 	}
 	props["C13"] = &propSpec{
-		Rules:      []string{"C13-a", "C13-b", "C13-c", "C13-g", "C07-b", "C09-a", "C12-e"},
+		Rules:      []string{"C13-a", "C13-b", "C13-c", "C13-g", "C13-h", "C13-i", "C07-b", "C09-a", "C09-g", "C12-e", "C15-c"},
 		Decides:    "write-order necessary conditions of crash consistency on every path: the table object is written after its derived indices (C13-a), after the worker join (C13-b); refs are written with a sum that is data-dependent on SaveCommit (C13-c); fetch saves refs after objects (C09-a); prune deletes commits last (C12-e); no commit before its parents (C07-b); SQL multi-statement writes run in one transaction (C13-g).",
 		NotDecided: "repeatability of the operation after a crash; effects of a crash inside a multi-branch pull; atomicity of the underlying stores (trusted).",
 	}
@@ -29,17 +29,17 @@ func init() {
 		NotDecided: "that IsAncestorOf answers correctly (C11); merge's fast-forward condition (control-dependent on SeekCommonAncestor); pull's new-branch detection; the remote side of push.",
 	}
 	props["C09"] = &propSpec{
-		Rules:      []string{"C09-a", "C09-b", "C09-c", "C09-e", "C09-f", "C10-c"},
+		Rules:      []string{"C09-a", "C09-b", "C09-c", "C09-e", "C09-f", "C09-g", "C10-c"},
 		Decides:    "ordering/completion mechanisms of fetch and push: refs saved only after objects were fetched successfully (C09-a); the upload-pack session ends only when the receiver reports all expected commits (C09-b); a push session is created only after the shallow-commit check (C09-c); ref writes go through pkg/ref's logging API (C10-c).",
 		NotDecided: "completeness of the transferred history, object identity on both sides, idempotence of a repeated fetch/push.",
 	}
 	props["C12"] = &propSpec{
-		Rules:      []string{"C12-a", "C12-b", "C12-c", "C12-d", "C12-e", "C12-f"},
+		Rules:      []string{"C12-a", "C12-b", "C12-c", "C12-d", "C12-e", "C12-f", "C13-i"},
 		Decides:    "structural mechanisms of prune safety: roots are seeded from an unfiltered ref listing (C12-a); no ref/object-store error is dropped while marking (C12-b); every delete lies under a not-marked edge (C12-c); sort.Search hits are bounds- and equality-checked before marks are written (C12-d); commits are deleted last (C12-e).",
 		NotDecided: "that the marked set equals the reachable set for every repository (graph-valued).",
 	}
 	props["C14"] = &propSpec{
-		Rules:      []string{"C14-a", "C14-b", "C14-c"},
+		Rules:      []string{"C14-a", "C14-b", "C14-c", "C13-g", "C10-d", "C15-c"},
 		Decides:    "typestate guard: Commit and Discard test the transaction's status before any mutation (C14-a); Commit's per-branch ref update is skipped for branches already logged under this transaction, so a failed commit can be completed by re-running without duplicating commits (C14-b); no branch mutation is reachable from Discard (C14-c).",
 		NotDecided: "the outcome of every crash point; log contents; atomicity of a single run (the per-branch loop is not one store transaction).",
 	}
@@ -49,7 +49,7 @@ func init() {
 		NotDecided: "sequence semantics of the store against a map model; the file store (pkg/ref/fs is imported only by tests and is outside the production call graph).",
 	}
 	props["C16"] = &propSpec{
-		Rules:      []string{"C16-a", "C16-b", "C16-c", "C16-d"},
+		Rules:      []string{"C16-a", "C16-b", "C16-c", "C16-d", "C16-e", "C16-f"},
 		Decides:    "for goroutines started in several instances on shared operands, every write to the shared state is synchronised (C16-a); the concurrently read progress-tracker fields are accessed atomically (C16-b); the ingest pool's error channel has room for one error per worker and a worker sends at most once (C16-c); no error is dropped in goroutine bodies (C16-d).",
 		NotDecided: "termination, deadlock freedom, equality with the sequential result, absence of every race (no may-happen-in-parallel analysis for main-vs-goroutine pairs).",
 	}
@@ -64,7 +64,7 @@ func init() {
 		NotDecided: "sortedness and de-duplication of the output for all row multisets and memory limits (value-dependent).",
 	}
 	props["C17"] = &propSpec{
-		Rules:      []string{"C17-a", "C17-b", "C17-c", "C17-d"},
+		Rules:      []string{"C17-a", "C17-b", "C17-c", "C17-d", "C07-b"},
 		Decides:    "in the hostile-reachable set: no unbounded stream-decoded count sizes an allocation (C17-a); fixed-width reads from caller-supplied byte slices are length-guarded (C17-b); constant indices into decoded collections are length-guarded (C17-c); results that can be nil together with an error are not dereferenced before the error test (C17-d).",
 		NotDecided: "implicit index panics with non-constant indices, loop termination, 'nothing from a rejected packfile is left referenced'.",
 	}
@@ -79,7 +79,7 @@ func init() {
 		NotDecided: "closedness, parent-first order, minimality, depth selection, polynomial termination — all statements about DAG values.",
 	}
 	props["C11"] = &propSpec{
-		Rules:      []string{"C11-a", "C11-b", "C11-c", "C11-d"},
+		Rules:      []string{"C11-a", "C11-b", "C11-c", "C11-d", "C11-e"},
 		Decides:    "'whatever the commit timestamps say' for the ancestor test: Commit.Time influences only the ordering of the frontier (C11-a); a negative answer is given only when the frontier is exhausted (C11-b); every parent is offered to the frontier (C11-c).",
 		NotDecided: "correctness of SeekCommonAncestor's lock-step elimination; visit-exactly-once (graph-valued).",
 	}
